@@ -146,6 +146,17 @@ func (fp *FuncProof) Prepare() {
 				for _, cl := range fp.fc.Candidates {
 					fp.cands[c] = append(fp.cands[c], &Atom{Name: cl.Text, Expr: cl.Expr, Droppable: true})
 				}
+				for _, tmpl := range fp.fc.PerConst {
+					for _, k := range ex.storedConsts() {
+						txt := strings.ReplaceAll(tmpl, "$c", fmt.Sprint(k))
+						e, err := parseSpecExpr(txt)
+						if err != nil {
+							fp.problem("perconst %q: %v", txt, err)
+							continue
+						}
+						fp.cands[c] = append(fp.cands[c], &Atom{Name: txt, Expr: e, Droppable: true})
+					}
+				}
 				if fp.fc.Measure != nil {
 					fp.meas[c] = &Atom{Name: "measure", Expr: fp.fc.Measure.Expr}
 				}
@@ -202,6 +213,57 @@ func (fp *FuncProof) Prepare() {
 	}
 	fp.stats.CutPoints = len(fp.cuts)
 	fp.stats.Paths = len(fp.paths)
+	if len(fp.cuts) > 0 {
+		fp.sameSCC(fp.cuts[0], fp.cuts[0])
+	}
+	fp.classifyReturnStates()
+}
+
+// classifyReturnStates splits the constants stored into scratch []int slices (the machines'
+// return states) into those pushed at nesting level 0 and the rest. Level 0 is approximated as
+// "on a path from entry that has neither pushed nor popped"; a wrong guess can only make the
+// proof fail, since the resulting invariant is checked like any other.
+func (fp *FuncProof) classifyReturnStates() {
+	ex := fp.ex
+	ex.retMain, ex.retSub = map[int64]bool{}, map[int64]bool{}
+	t0 := map[*Cut]bool{}
+	plain := func(pe *PathEnd) bool {
+		for _, ev := range pe.St.events {
+			if ev.Kind == "store-elem" || ev.Kind == "load-elem" {
+				return false
+			}
+		}
+		return true
+	}
+	changed := true
+	for changed {
+		changed = false
+		for _, pe := range fp.paths {
+			if pe.Kind != "cut" || !(pe.From == nil || t0[pe.From]) || t0[pe.To] {
+				continue
+			}
+			if plain(pe) {
+				t0[pe.To] = true
+				changed = true
+			}
+		}
+	}
+	for _, pe := range fp.paths {
+		lvl0 := pe.From == nil || t0[pe.From]
+		for _, ev := range pe.St.events {
+			if ev.Kind == "store-elem" {
+				v := ev.Info["val"]
+				if v.IsConst() && v.Sort.W == 64 {
+					k := v.SVal().Int64()
+					if lvl0 {
+						ex.retMain[k] = true
+					} else {
+						ex.retSub[k] = true
+					}
+				}
+			}
+		}
+	}
 }
 
 func (fp *FuncProof) evalStart(c *Cut, a *Atom) evalRes {
@@ -239,7 +301,11 @@ func (fp *FuncProof) evalEnd(pe *PathEnd, a *Atom) evalRes {
 	if ok {
 		return r
 	}
-	r, err := a.eval(fp.ex, pe.St.clone(), true)
+	est := pe.St
+	if a.Fn != nil {
+		est = pe.St.clone()
+	}
+	r, err := a.eval(fp.ex, est, true)
 	if err != nil {
 		fp.problem("%s: invariant %q at end of path into %s: %v", fp.fn.Name(), a.Name, pe.To.Label, err)
 		r.t = False
@@ -378,10 +444,6 @@ func (fp *FuncProof) houdiniPath(pe *PathEnd) (dropped, again bool) {
 	if len(gts) == 0 {
 		return false, false
 	}
-	res, _, vals := fp.query("houdini", hs, qs, gts, gts)
-	if res.Status == "unsat" {
-		return false, false
-	}
 	drop := func(a *Atom) {
 		fp.mu.Lock()
 		if fp.alive[pe.To][a] {
@@ -390,23 +452,35 @@ func (fp *FuncProof) houdiniPath(pe *PathEnd) (dropped, again bool) {
 		}
 		fp.mu.Unlock()
 	}
-	if res.Status == "sat" && len(res.Values) > 0 {
+	for iter := 0; iter < 100 && len(gts) > 0; iter++ {
+		res, _, vals := fp.query("houdini", hs, qs, gts, gts)
+		if res.Status == "unsat" {
+			return dropped, false
+		}
 		n := 0
-		for k, a := range live {
-			if k < len(vals) && res.Values[vals[k]] == "false" {
-				drop(a)
-				n++
+		if res.Status == "sat" && len(res.Values) > 0 {
+			var ngts []*Term
+			var nlive []*Atom
+			for k, a := range live {
+				if k < len(vals) && res.Values[vals[k]] == "false" {
+					drop(a)
+					n++
+				} else {
+					ngts = append(ngts, gts[k])
+					nlive = append(nlive, a)
+				}
 			}
+			gts, live = ngts, nlive
 		}
-		if n > 0 {
-			return dropped, true
-		}
-	}
-	// fall back: decide each goal separately
-	for k, a := range live {
-		r, _, _ := fp.query("houdini1", hs, qs, []*Term{gts[k]}, nil)
-		if r.Status != "unsat" {
-			drop(a)
+		if n == 0 {
+			// fall back: decide each goal separately
+			for k, a := range live {
+				r, _, _ := fp.query("houdini1", hs, qs, []*Term{gts[k]}, nil)
+				if r.Status != "unsat" {
+					drop(a)
+				}
+			}
+			return dropped, false
 		}
 	}
 	return dropped, false
